@@ -18,6 +18,7 @@ import (
 	"bytes"
 	"fmt"
 	"io"
+	"math"
 	"sort"
 	"strconv"
 	"time"
@@ -76,9 +77,19 @@ func writeValue(w io.Writer, v interface{}, sdl bool, depth, indent int) (err er
 		case int:
 			_, err = w.Write([]byte(strconv.FormatInt(int64(tv), 10)))
 		case float64:
-			_, err = w.Write([]byte(strconv.FormatFloat(tv, 'g', -1, 64)))
+			if !sdl && (math.IsNaN(tv) || math.IsInf(tv, 0)) {
+				// JSON has no notation for NaN or an infinity.
+				_, err = w.Write([]byte(nullStr))
+			} else {
+				_, err = w.Write([]byte(strconv.FormatFloat(tv, 'g', -1, 64)))
+			}
 		case float32:
-			_, err = w.Write([]byte(strconv.FormatFloat(float64(tv), 'g', -1, 32)))
+			if !sdl && (math.IsNaN(float64(tv)) || math.IsInf(float64(tv), 0)) {
+				// JSON has no notation for NaN or an infinity.
+				_, err = w.Write([]byte(nullStr))
+			} else {
+				_, err = w.Write([]byte(strconv.FormatFloat(float64(tv), 'g', -1, 32)))
+			}
 		case bool:
 			if tv {
 				_, err = w.Write([]byte(trueStr))
